@@ -237,6 +237,13 @@ def verdicts (st : DState) (op : String) (args : List String) (goRes : String) :
   | some res =>
     -- a run-time panic inside a composite observation (band ops print PANIC for the accessor that panicked)
     if (res.getD []).contains "PANIC" then [("*", "panic-in-observation")] else
+    -- C09 / C10 observations made by the harness on the implementation (harness/ops_iso.go, canon.go guardedBuf)
+    if (res.getD []).contains "WROTE-INPUT" then [("*", "decoder-or-inspector-wrote-to-its-input-buffer")] else
+    if IsoOps.isIsoOp op && (res.getD []).contains "CHANGED" then
+      [("C10", if op == "bandiso" then "band-instances-share-mutable-state" else if op == "inspect" then "inspect-only-operation-modified-the-frame"
+               else "value-shares-memory-with-caller-buffer")] else
+    if IsoOps.isIsoOp op && (res.getD []).contains "DIFF" then [("C10", "decoding-into-a-used-value-differs-from-a-fresh-one")] else
+    if IsoOps.isIsoOp op && (res.getD []).contains "DIRTY" then [("C10", "encryption-wrote-outside-the-slice-it-was-given")] else
     match op, args with
     | "macenc", [tok] =>
       match parsePayload tok with
@@ -274,6 +281,19 @@ def verdicts (st : DState) (op : String) (args : List String) (goRes : String) :
         | none, none => []
         | _, _ => [("*", "unparsable-result")]
       | _, _ => []
+    | "macdecinto", [prevTok, h] =>
+      -- decoding into a used value: the result is what the specification says for these bytes, whatever the receiver held
+      (match parsePayload prevTok, unhx h with
+       | some prev, some bs =>
+         (match res, Spec.dec prev.kind bs with
+          | some [tok], some v =>
+            (match parsePayload tok with
+             | some g => if g == v then [] else [("C10", "decoding-into-a-used-value-differs-from-a-fresh-one")]
+             | none => [("*", "unparsable-result")])
+          | some _, none => [("C10", "decoding-into-a-used-value-differs-from-a-fresh-one")]
+          | none, some _ => [("C10", "decoding-into-a-used-value-differs-from-a-fresh-one")]
+          | _, _ => [])
+       | _, _ => [])
     | "getsize", [u, c] =>
       match u.toNat?, c.toNat? with
       | some u, some c =>
